@@ -1101,7 +1101,7 @@ QUICK_CANARIES = True
 
 CLAIM = {
     "text": "Decided for every integer and every string: the normaliser's conditions only compare the argument with constants, test string classes and test exact power-of-two-ness, "
-            "so the finite abstract domain (interval between consecutive constants x power-of-two flag x string class x free float-test outcomes) is exhaustive; each cell is traced "
+            "so the finite abstract domain (interval between consecutive constants x power-of-two flag x string class x free float-test outcomes; when the bit length is read, every power of two - and the negatives of some, for sign-blind primitives - as a cell of its own, integer locals derived from the argument evaluated exactly) is exhaustive; each cell is traced "
             "through the CFG and compared with the specification. The automatic choice is bounded and monotone by loop-bound and polarity analysis; the recorded value is provably "
             "the unchanged return value.",
     "note": "Trusted: CPython semantics of int/str predicates. The command line and the configuration file hand strings to the same keyword (route agreement is C20). "
